@@ -81,7 +81,8 @@ def random_options(rng, kind, n):
         pool += [('discrete_cost', True), ('discrete_cost', False), ('train_rf', False),
                  ('train_features', True)]
     else:
-        pool += [('temperature', round(10 ** rng.uniform(-1.3, 1.3), 4)), ('hard', True),
+        pool += [('temperature', round(10 ** rng.uniform(-1.3, 1.3), 4)),
+                 ('temperature', round(10 ** rng.uniform(-1.3, 1.3), 4)), ('hard', True),
                  ('hard', False)]
         if kind != 'supernet':
             pool += [('gumbel', False), ('disable_sampling', True), ('disable_sampling', False)]
